@@ -191,7 +191,7 @@ Definition Ok {T : Type} (off : nat) (p : nat -> list token -> option (T * list 
 
 Lemma length_cons {A} (x : A) l : length (x :: l) = S (length l).
 Proof. reflexivity. Qed.
-Ltac len := repeat (rewrite app_length || rewrite length_cons); try lia.
+Ltac len := repeat (rewrite app_length in * || rewrite length_cons in * ); simpl length in *; try lia.
 
 (* what the token after an expression would be absorbed by:
    8 postfix, 6 * / %, 5 + -, 4 comparison, 2 AND, 1 OR, 0 nothing *)
@@ -243,25 +243,6 @@ Proof.
   destruct k; simpl in H; try lia; reflexivity.
 Qed.
 
-(* no comparison continues at a token of continuation level < 4 *)
-Lemma cmp_stop a rest : follow 4 rest ->
-  match cmp_of_tokens rest with
-  | Some (op, r1) => None
-  | None =>
-    match rest with
-    | TKw KIS :: TId n :: r1 => None
-    | TKw KIS :: TKw KNOT :: TId n :: r1 => None
-    | TId n :: r1 => if str_eqb n w_between then None else Some (a, rest)
-    | _ => Some (a, rest)
-    end
-  end = Some (a, rest).
-Proof.
-  destruct rest as [|t r]; [reflexivity|]. simpl. intros H.
-  destruct t; simpl in H; try lia; try reflexivity.
-  - destruct k; simpl in H; try lia; reflexivity.
-  - destruct (str_eqb s w_between); [lia|reflexivity].
-Qed.
-
 (* ---------------------------------------------------------------------- *)
 (* the chain: a fact at one grammar level gives the fact one level down *)
 
@@ -299,15 +280,10 @@ Proof. intros H Hl H2 m Hm. destruct m; [lia|]. rewrite p_sum_S, H by lia. apply
 Lemma L_S_C ts a r0 : Ok 9 p_sum ts (a, r0) -> follow 4 r0 -> Ok 10 p_comparison ts (a, r0).
 Proof.
   intros H Hf m Hm. destruct m; [lia|]. rewrite p_comparison_S, H by lia.
-  pose proof (cmp_stop a r0 Hf) as C.
-  destruct (cmp_of_tokens r0) as [[op r1]|]; [discriminate|].
   destruct r0 as [|t r]; [reflexivity|].
-  destruct t; try exact C; try reflexivity.
-  - destruct k; try exact C; try reflexivity.
-    destruct r as [|t2 r2]; [reflexivity|]. destruct t2; try discriminate; try reflexivity.
-    destruct k; try discriminate; try reflexivity.
-    destruct r2 as [|t3 r3]; [reflexivity|]. destruct t3; try discriminate; reflexivity.
-  - destruct (str_eqb s w_between); [discriminate|reflexivity].
+  destruct t; simpl in Hf; try lia; try reflexivity.
+  - destruct k; simpl in Hf; try lia; reflexivity.
+  - destruct (str_eqb s w_between) eqn:E; [lia|reflexivity].
 Qed.
 
 Lemma L_C_I ts r : Ok 10 p_comparison ts r -> hd_not_NOT ts -> Ok 11 p_inversion ts r.
@@ -351,4 +327,752 @@ Lemma L_E_Par ts a rest : Ok 14 p_expression ts (a, TRP :: rest) -> look ts = fa
 Proof.
   intros H Hl m Hm. destruct m; [lia|]. rewrite p_factor_S, (p_unary_paren_None ts Hl).
   rewrite H; [reflexivity|]. rewrite length_cons in Hm. lia.
+Qed.
+
+(* ---------------------------------------------------------------------- *)
+(* the facts proved about a print [b] of a tree whose erasure is [e], one per grammar level *)
+
+Definition cont_lvl' (t : token) : nat := match t with TLP => 9 | _ => cont_lvl t end.
+Definition follow' (L : nat) (rest : list token) : Prop :=
+  match rest with [] => True | t :: _ => cont_lvl' t < L end.
+Lemma follow'_mono L L' rest : follow' L rest -> L <= L' -> follow' L' rest.
+Proof. destruct rest; simpl; auto. intros; lia. Qed.
+Lemma follow'_follow L rest : follow' L rest -> follow L rest.
+Proof. destruct rest as [|t r]; simpl; auto. destruct t; simpl; auto; lia. Qed.
+
+Definition nocomma (rest : list token) : Prop := match rest with TComma :: _ => False | _ => True end.
+Definition hdb (k : nat) (b : list token) : Prop :=
+  match b with
+  | [] => False
+  | t :: _ => (4 <= k -> t <> TKw KNOT) /\ (8 <= k -> t <> TPlus /\ t <> TMinus)
+  end.
+Definition nolook (b : list token) : Prop := forall rest, nocomma rest -> look (b ++ rest) = false.
+
+Lemma hdb_mono k k' b : hdb k b -> k' <= k -> hdb k' b.
+Proof. destruct b; simpl; auto. intros [H1 H2] Hk. split; intros; [apply H1|apply H2]; lia. Qed.
+Lemma hdb_pm b rest : hdb 8 b -> hd_not_pm (b ++ rest).
+Proof.
+  destruct b as [|t b]; simpl; [tauto|]. intros [_ H]. destruct (H (le_n 8)) as [H1 H2].
+  destruct t; auto; congruence.
+Qed.
+Lemma hdb_NOT b rest : hdb 4 b -> hd_not_NOT (b ++ rest).
+Proof.
+  destruct b as [|t b]; simpl; [tauto|]. intros [H _]. specialize (H (le_n 4)).
+  destruct t; auto. destruct k; auto; congruence.
+Qed.
+
+Section Facts.
+Variable b : list token.
+Variable e : expr.
+
+Definition F9 := forall rest, follow' 9 rest -> Ok 2 p_atom (b ++ rest) (e, rest).
+Definition F8 := forall rest, follow' 9 rest -> Ok 3 p_primary (b ++ rest) (primary_loop e rest).
+Definition F7 := forall rest, follow' 8 rest -> Ok 5 p_factor (b ++ rest) (e, rest).
+Definition F6 := forall rest r, follow' 8 rest -> Ok 1 (fun m => term_loop m e) rest r -> Ok 7 p_term (b ++ rest) r.
+Definition F5 := forall rest r, follow' 6 rest -> Ok 1 (fun m => sum_loop m e) rest r -> Ok 9 p_sum (b ++ rest) r.
+Definition F4 := forall rest, follow' 4 rest -> Ok 10 p_comparison (b ++ rest) (e, rest).
+Definition F3 := forall rest, follow' 4 rest -> Ok 11 p_inversion (b ++ rest) (e, rest).
+Definition F2 := forall rest, follow' 2 rest -> Ok 12 p_conjunction (b ++ rest) (e, rest).
+Definition F1 := forall rest, follow' 1 rest -> Ok 14 p_expression (b ++ rest) (e, rest).
+Definition FP := forall rest, Ok 5 p_factor (TLP :: b ++ TRP :: rest) (e, rest).
+
+Definition Fall (k : nat) : Prop :=
+  (9 <= k -> F9) /\ (8 <= k -> F8) /\ (7 <= k -> F7) /\ (6 <= k -> F6) /\ (5 <= k -> F5) /\
+  (4 <= k -> F4) /\ (3 <= k -> F3) /\ (2 <= k -> F2) /\ (1 <= k -> F1) /\ FP.
+
+Lemma c98 : F9 -> F8.
+Proof. intros H rest Hf. apply L_A_P, H, Hf. Qed.
+Lemma c87 : hdb 8 b -> F8 -> F7.
+Proof.
+  intros Hh H rest Hf. apply L_P_F; [|apply hdb_pm, Hh].
+  rewrite <- (primary_loop_stop e rest) by (apply follow'_follow, Hf).
+  apply H. eapply follow'_mono; [exact Hf|lia].
+Qed.
+Lemma c76 : F7 -> F6.
+Proof. intros H rest r Hf Hl. eapply L_F_T; [apply H, Hf| len |exact Hl]. Qed.
+Lemma c65 : F6 -> F5.
+Proof.
+  intros H rest r Hf Hl.
+  assert (T : Ok 7 p_term (b ++ rest) (e, rest)).
+  { apply H; [eapply follow'_mono; [exact Hf|lia]|]. apply term_loop_stop, follow'_follow, Hf. }
+  eapply L_T_S; [exact T|len|exact Hl].
+Qed.
+Lemma c54 : F5 -> F4.
+Proof.
+  intros H rest Hf. apply L_S_C; [|apply follow'_follow, Hf].
+  apply H; [eapply follow'_mono; [exact Hf|lia]|].
+  apply sum_loop_stop, follow'_follow. eapply follow'_mono; [exact Hf|lia].
+Qed.
+Lemma c43 : hdb 4 b -> F4 -> F3.
+Proof. intros Hh H rest Hf. apply L_C_I; [apply H, Hf|apply hdb_NOT, Hh]. Qed.
+Lemma c32 : F3 -> F2.
+Proof.
+  intros H rest Hf.
+  assert (T : Ok 11 p_inversion (b ++ rest) (e, rest)) by (apply H; eapply follow'_mono; [exact Hf|lia]).
+  apply L_I_J; [exact T|len|apply follow'_follow, Hf].
+Qed.
+Lemma c21 : F2 -> F1.
+Proof.
+  intros H rest Hf.
+  assert (T : Ok 12 p_conjunction (b ++ rest) (e, rest)) by (apply H; eapply follow'_mono; [exact Hf|lia]).
+  apply L_D_E, L_J_D; [exact T|len|apply follow'_follow, Hf].
+Qed.
+Lemma c1P : nolook b -> F1 -> FP.
+Proof.
+  intros Hn H rest. apply L_E_Par; [apply H; simpl; lia|apply Hn; exact I].
+Qed.
+
+Lemma Fall_build k : 1 <= k <= 9 -> hdb k b -> nolook b ->
+  (k = 9 -> F9) -> (k = 8 -> F8) -> (k = 7 -> F7) -> (k = 6 -> F6) -> (k = 5 -> F5) ->
+  (k = 4 -> F4) -> (k = 3 -> F3) -> (k = 2 -> F2) -> (k = 1 -> F1) -> Fall k.
+Proof.
+  intros Hk Hh Hn X9 X8 X7 X6 X5 X4 X3 X2 X1.
+  assert (H9 : 9 <= k -> F9) by (intros; apply X9; lia).
+  assert (H8 : 8 <= k -> F8).
+  { intros. destruct (Nat.eq_dec k 8); [auto|apply c98, H9; lia]. }
+  assert (H7 : 7 <= k -> F7).
+  { intros. destruct (Nat.eq_dec k 7); [auto|]. apply c87; [eapply hdb_mono; [exact Hh|lia]|apply H8; lia]. }
+  assert (H6 : 6 <= k -> F6).
+  { intros. destruct (Nat.eq_dec k 6); [auto|apply c76, H7; lia]. }
+  assert (H5 : 5 <= k -> F5).
+  { intros. destruct (Nat.eq_dec k 5); [auto|apply c65, H6; lia]. }
+  assert (H4 : 4 <= k -> F4).
+  { intros. destruct (Nat.eq_dec k 4); [auto|apply c54, H5; lia]. }
+  assert (H3 : 3 <= k -> F3).
+  { intros. destruct (Nat.eq_dec k 3); [auto|]. apply c43; [eapply hdb_mono; [exact Hh|lia]|apply H4; lia]. }
+  assert (H2 : 2 <= k -> F2).
+  { intros. destruct (Nat.eq_dec k 2); [auto|apply c32, H3; lia]. }
+  assert (H1 : 1 <= k -> F1).
+  { intros. destruct (Nat.eq_dec k 1); [auto|apply c21, H2; lia]. }
+  repeat split; auto. apply c1P; [exact Hn|apply H1; lia].
+Qed.
+
+Lemma Fall_mono k k' : Fall k -> k' <= k -> Fall k'.
+Proof.
+  intros (H9 & H8 & H7 & H6 & H5 & H4 & H3 & H2 & H1 & HP) Hk.
+  repeat split; auto; intros; [apply H9|apply H8|apply H7|apply H6|apply H5|apply H4|apply H3|apply H2|apply H1]; lia.
+Qed.
+End Facts.
+
+Lemma paren_app b rest : paren b ++ rest = TLP :: b ++ TRP :: rest.
+Proof. unfold paren. simpl. rewrite <- app_assoc. reflexivity. Qed.
+
+Lemma nolook_paren b : nolook (paren b).
+Proof.
+  intros rest _. rewrite paren_app. simpl. destruct (b ++ TRP :: rest) as [|t r]; [reflexivity|].
+  destruct t; reflexivity.
+Qed.
+
+(* what is known of a sub-tree *)
+Definition Good (c : expr) : Prop :=
+  Fall (body c) (erase c) (lvl c) /\ hdb (lvl c) (body c) /\ nolook (body c).
+
+(* the print of a child at a position that needs binding strength L <= 7 *)
+Lemma pp_Fall L x : 1 <= L <= 7 -> 1 <= lvl x -> Good x ->
+  Fall (pp L x) (erase x) L /\ hdb L (pp L x) /\ nolook (pp L x).
+Proof.
+  intros HL Hx (HF & Hh & Hn). unfold pp. destruct (lvl x <? L) eqn:E.
+  - assert (F : Fall (paren (body x)) (erase x) 7).
+    { apply Fall_build; try lia.
+      - simpl. split; intros; [discriminate|split; discriminate].
+      - apply nolook_paren.
+      - intros _ rest _. rewrite paren_app. apply HF. }
+    split; [eapply Fall_mono; [exact F|lia]|]. split; [|apply nolook_paren].
+    simpl. split; intros; [discriminate|split; discriminate].
+  - apply Nat.ltb_ge in E. split; [eapply Fall_mono; [exact HF|exact E]|].
+    split; [eapply hdb_mono; [exact Hh|exact E]|exact Hn].
+Qed.
+
+(* ---------------------------------------------------------------------- *)
+(* helper facts *)
+
+Lemma str_eqb_refl s : str_eqb s s = true.
+Proof. induction s; simpl; [reflexivity|]. rewrite Z.eqb_refl. exact IHs. Qed.
+
+Lemma lit_of_lit_tok l : lit_of_tok (lit_tok l) = Some l.
+Proof. destruct l as [| [] | | | |]; reflexivity. Qed.
+
+Lemma lit_tok_not_comma l : lit_tok l <> TComma.
+Proof. destruct l as [| [] | | | |]; discriminate. Qed.
+
+Lemma p_lits_lit acc l r : p_lits acc (lit_tok l :: r) =
+  match r with TComma :: r' => p_lits (l :: acc) r' | _ => (rev (l :: acc), r) end.
+Proof.
+  change (p_lits acc (lit_tok l :: r)) with
+    (match lit_of_tok (lit_tok l) with
+     | Some l0 => match r with TComma :: r' => p_lits (l0 :: acc) r' | _ => (rev (l0 :: acc), r) end
+     | None => match lit_tok l with TComma => p_lits acc r | _ => (rev acc, lit_tok l :: r) end
+     end).
+  rewrite lit_of_lit_tok. reflexivity.
+Qed.
+
+Lemma p_lits_tail ls : ls <> [] -> forall acc rest,
+  p_lits acc (lits_tail ls ++ TRP :: rest) = (rev acc ++ ls, TRP :: rest).
+Proof.
+  induction ls as [|l ls IH]; [congruence|]. intros _ acc rest.
+  destruct ls as [|l2 ls].
+  - change (lits_tail [l] ++ TRP :: rest) with (lit_tok l :: TRP :: rest).
+    rewrite p_lits_lit. reflexivity.
+  - change (lits_tail (l :: l2 :: ls) ++ TRP :: rest)
+      with (lit_tok l :: TComma :: (lits_tail (l2 :: ls) ++ TRP :: rest)).
+    rewrite p_lits_lit, IH by discriminate. simpl. rewrite <- app_assoc. reflexivity.
+Qed.
+
+Lemma p_lits_toks ls : ls <> [] -> forall rest,
+  p_lits [] (lits_toks ls ++ TRP :: rest) = (ls, TRP :: rest).
+Proof.
+  intros Hn rest. destruct ls as [|l [|l2 ls]]; [congruence| |].
+  - change (lits_toks [l] ++ TRP :: rest) with (lit_tok l :: TComma :: TRP :: rest).
+    rewrite p_lits_lit. reflexivity.
+  - change (lits_toks (l :: l2 :: ls) ++ TRP :: rest)
+      with (lit_tok l :: TComma :: (lits_tail (l2 :: ls) ++ TRP :: rest)).
+    rewrite p_lits_lit, p_lits_tail by discriminate. reflexivity.
+Qed.
+
+Lemma cmp_of_cmp_toks op r : cmp_of_tokens (cmp_toks op ++ r) = Some (op, r).
+Proof. destruct op; reflexivity. Qed.
+
+(* tokens no expression starts with *)
+Definition dead (t : token) : bool :=
+  match t with TRP | TStar | TComma | TRB => true | _ => false end.
+Lemma atom_dead t r : dead t = true -> forall m, p_atom m (t :: r) = None.
+Proof. intros H m. destruct m; [reflexivity|]. rewrite p_atom_S. destruct t; try discriminate; reflexivity. Qed.
+Lemma primary_dead t r : dead t = true -> forall m, p_primary m (t :: r) = None.
+Proof. intros H m. destruct m; [reflexivity|]. rewrite p_primary_S, atom_dead by exact H. reflexivity. Qed.
+Lemma unary_dead t r : dead t = true -> forall m, p_unary m (t :: r) = None.
+Proof.
+  intros H m. destruct m; [reflexivity|]. rewrite p_unary_S.
+  destruct t; try discriminate; apply primary_dead; reflexivity.
+Qed.
+Lemma factor_dead t r : dead t = true -> forall m, p_factor m (t :: r) = None.
+Proof.
+  intros H m. destruct m; [reflexivity|]. rewrite p_factor_S, unary_dead by exact H.
+  destruct t; try discriminate; reflexivity.
+Qed.
+Lemma term_dead t r : dead t = true -> forall m, p_term m (t :: r) = None.
+Proof. intros H m. destruct m; [reflexivity|]. rewrite p_term_S, factor_dead by exact H. reflexivity. Qed.
+Lemma sum_dead t r : dead t = true -> forall m, p_sum m (t :: r) = None.
+Proof. intros H m. destruct m; [reflexivity|]. rewrite p_sum_S, term_dead by exact H. reflexivity. Qed.
+Lemma cmp_dead t r : dead t = true -> forall m, p_comparison m (t :: r) = None.
+Proof. intros H m. destruct m; [reflexivity|]. rewrite p_comparison_S, sum_dead by exact H. reflexivity. Qed.
+Lemma inv_dead t r : dead t = true -> forall m, p_inversion m (t :: r) = None.
+Proof.
+  intros H m. destruct m; [reflexivity|]. rewrite p_inversion_S.
+  destruct t; try discriminate; apply cmp_dead; reflexivity.
+Qed.
+Lemma conj_dead t r : dead t = true -> forall m, p_conjunction m (t :: r) = None.
+Proof. intros H m. destruct m; [reflexivity|]. rewrite p_conjunction_S, inv_dead by exact H. reflexivity. Qed.
+Lemma disj_dead t r : dead t = true -> forall m, p_disjunction m (t :: r) = None.
+Proof. intros H m. destruct m; [reflexivity|]. rewrite p_disjunction_S, conj_dead by exact H. reflexivity. Qed.
+Lemma expr_dead t r : dead t = true -> forall m, p_expression m (t :: r) = None.
+Proof.
+  intros H m. destruct m; [reflexivity|]. rewrite p_expression_S, disj_dead, conj_dead by exact H. reflexivity.
+Qed.
+
+Lemma In_lsize {A} (f : A -> nat) x l : List.In x l -> f x <= lsize f l.
+Proof.
+  induction l as [|y l IH]; simpl; [tauto|]. intros [->|H]; [lia|]. specialize (IH H). lia.
+Qed.
+
+(* function arguments after the first *)
+Lemma args_tail : forall l acc rest,
+  (forall x, List.In x l -> F1 (pp 1 x) (erase x)) ->
+  Ok 1 (fun m => args_loop m acc)
+     (concat (map (fun x => TComma :: pp 1 x) l) ++ TRP :: rest)
+     (rev acc ++ map erase l, TRP :: rest).
+Proof.
+  induction l as [|x l IH]; intros acc rest HF m Hm.
+  - destruct m; [lia|]. cbn [map concat app]. rewrite args_loop_S, app_nil_r. reflexivity.
+  - destruct m; [lia|]. cbn [map concat app] in *. rewrite <- app_assoc. rewrite args_loop_S.
+    rewrite length_cons, !app_length in Hm.
+    rewrite (HF x (or_introl eq_refl)).
+    + rewrite IH; [|intros; apply HF; right; assumption|len].
+      simpl. rewrite <- app_assoc. reflexivity.
+    + destruct l; simpl; lia.
+    + len.
+Qed.
+
+(* AND / OR operands after the first *)
+Lemma and_tail : forall l a acc rest,
+  (forall x, List.In x l -> F3 (pp 3 x) (erase x)) -> follow' 2 rest ->
+  Ok 1 (fun m => and_loop m a acc)
+     (concat (map (fun x => TKw KAND :: pp 3 x) l) ++ rest)
+     (mk_bool EAnd a (rev (map erase l) ++ acc), rest).
+Proof.
+  induction l as [|x l IH]; intros a acc rest HF Hf m Hm.
+  - cbn [map concat app rev]. apply and_loop_stop; [apply follow'_follow, Hf|exact Hm].
+  - destruct m; [lia|]. cbn [map concat app] in *. rewrite <- app_assoc. rewrite and_loop_S.
+    rewrite length_cons, !app_length in Hm.
+    rewrite (HF x (or_introl eq_refl)).
+    + rewrite IH; [|intros; apply HF; right; assumption|exact Hf|len].
+      simpl. rewrite <- app_assoc. reflexivity.
+    + destruct l; simpl; [eapply follow'_mono; [exact Hf|lia]|lia].
+    + len.
+Qed.
+
+Lemma or_tail : forall l a acc rest,
+  (forall x, List.In x l -> F2 (pp 2 x) (erase x)) -> follow' 1 rest ->
+  Ok 1 (fun m => or_loop m a acc)
+     (concat (map (fun x => TKw KOR :: pp 2 x) l) ++ rest)
+     (mk_bool EOr a (rev (map erase l) ++ acc), rest).
+Proof.
+  induction l as [|x l IH]; intros a acc rest HF Hf m Hm.
+  - cbn [map concat app rev]. apply or_loop_stop; [apply follow'_follow, Hf|exact Hm].
+  - destruct m; [lia|]. cbn [map concat app] in *. rewrite <- app_assoc. rewrite or_loop_S.
+    rewrite length_cons, !app_length in Hm.
+    rewrite (HF x (or_introl eq_refl)).
+    + rewrite IH; [|intros; apply HF; right; assumption|exact Hf|len].
+      simpl. rewrite <- app_assoc. reflexivity.
+    + destruct l; simpl; [eapply follow'_mono; [exact Hf|lia]|lia].
+    + len.
+Qed.
+
+Lemma mk_bool_rev C a l : l <> [] -> mk_bool C a (rev l ++ []) = C (a :: l).
+Proof.
+  intros Hl. rewrite app_nil_r. unfold mk_bool.
+  destruct (rev l) eqn:E.
+  - apply (f_equal (@rev _)) in E. rewrite rev_involutive in E. simpl in E. congruence.
+  - rewrite <- E, rev_involutive. reflexivity.
+Qed.
+
+(* ---------------------------------------------------------------------- *)
+(* the main induction (expressions without sub-selects first) *)
+
+Fixpoint nosel (e : expr) : bool :=
+  match e with
+  | ESelect _ _ _ _ _ _ _ _ => false
+  | EConst _ | EList _ | EColumn _ | EFuncStar _ | EPlace _ => true
+  | EFunc _ args => forallb nosel args
+  | EAttr a _ | ESubscript a _ | ENeg a | EIsNull a | EIsNotNull a | ENot a | EParen a | EUPlus a => nosel a
+  | EArith _ a b | ECmp _ a b => nosel a && nosel b
+  | EBetween a b c => nosel a && nosel b && nosel c
+  | EAnd l | EOr l => forallb nosel l
+  end.
+
+Lemma nosel_lvl c : nosel c = true -> 1 <= lvl c.
+Proof. destruct c; simpl; try discriminate; try lia. destruct op; lia. Qed.
+
+Lemma hdb_app k b r : hdb k b -> hdb k (b ++ r).
+Proof. destruct b; simpl; tauto. Qed.
+Lemma nolook_app b r : nolook b -> (forall rest, nocomma (r ++ rest)) -> nolook (b ++ r).
+Proof. intros H Hr rest _. rewrite <- app_assoc. apply H, Hr. Qed.
+Lemma nolook_single t : nolook [t].
+Proof.
+  intros rest H. simpl. destruct rest as [|t2 r]; [reflexivity|].
+  destruct t2; try reflexivity. contradiction.
+Qed.
+
+Ltac wrong_levels := try (let Hk := fresh "Hk" in intro Hk; discriminate Hk).
+Ltac ok_start := let m := fresh "m" in let Hm := fresh "Hm" in
+  intros m Hm; destruct m as [|m]; [exfalso; revert Hm; len|].
+
+Lemma Fall_F9 b e k : Fall b e k -> 9 <= k -> F9 b e. Proof. intros H; apply H. Qed.
+Lemma Fall_F8 b e k : Fall b e k -> 8 <= k -> F8 b e. Proof. intros H; apply H. Qed.
+Lemma Fall_F7 b e k : Fall b e k -> 7 <= k -> F7 b e. Proof. intros H; apply H. Qed.
+Lemma Fall_F6 b e k : Fall b e k -> 6 <= k -> F6 b e. Proof. intros H; apply H. Qed.
+Lemma Fall_F5 b e k : Fall b e k -> 5 <= k -> F5 b e. Proof. intros H; apply H. Qed.
+Lemma Fall_F4 b e k : Fall b e k -> 4 <= k -> F4 b e. Proof. intros H; apply H. Qed.
+Lemma Fall_F3 b e k : Fall b e k -> 3 <= k -> F3 b e. Proof. intros H; apply H. Qed.
+Lemma Fall_F2 b e k : Fall b e k -> 2 <= k -> F2 b e. Proof. intros H; apply H. Qed.
+Lemma Fall_F1 b e k : Fall b e k -> 1 <= k -> F1 b e. Proof. intros H; apply H. Qed.
+Lemma Fall_FP b e k : Fall b e k -> FP b e. Proof. intros H; apply H. Qed.
+
+Definition args_toks (args : list expr) : list token :=
+  match args with
+  | [] => []
+  | a :: r => pp 1 a ++ concat (map (fun x => TComma :: pp 1 x) r)
+  end.
+
+Lemma args_ok args rest : (forall x, List.In x args -> F1 (pp 1 x) (erase x)) ->
+  Ok 15 p_args (args_toks args ++ TRP :: rest) (map erase args, TRP :: rest).
+Proof.
+  intros HF. destruct args as [|a l]; ok_start; rewrite p_args_S.
+  - cbn [args_toks app]. rewrite expr_dead by reflexivity.
+    destruct m; [lia|]. reflexivity.
+  - cbn [args_toks]. rewrite <- app_assoc.
+    rewrite (HF a (or_introl eq_refl)).
+    + rewrite (args_tail l [erase a] rest); [reflexivity| |cbn [args_toks] in *; len].
+      intros x Hx. apply HF. right. exact Hx.
+    + destruct l; simpl; lia.
+    + cbn [args_toks] in *; len.
+Qed.
+
+Lemma args_star r : forall m, 2 <= m -> p_args m (TStar :: r) = Some ([], TStar :: r).
+Proof.
+  intros m Hm. destruct m; [lia|]. rewrite p_args_S, expr_dead by reflexivity.
+  destruct m; [lia|]. reflexivity.
+Qed.
+
+Lemma main : forall n c, esize c <= n -> wf c = true -> nosel c = true -> Good c.
+Proof.
+  induction n as [|n IH]; intros c Hs Hwf Hns.
+  { destruct c; simpl in Hs; lia. }
+  destruct c; cbn [wf nosel esize] in Hs, Hwf, Hns; try discriminate Hns.
+  - (* EConst *)
+    assert (Hh : hdb 9 [lit_tok l]).
+    { simpl. split; intros; [|split]; destruct l as [| [] | | | |]; discriminate. }
+    split; [|split; [exact Hh|apply nolook_single]].
+    apply Fall_build; [cbn [lvl]; lia|exact Hh|apply nolook_single|..]; cbn [lvl]; wrong_levels; intros _.
+    intros rest Hf. ok_start. cbn [body app]. rewrite p_atom_S.
+    destruct l as [| [] | | | |]; try reflexivity.
+    (* NULL: an identifier, must not be followed by `(` *)
+    cbn [lit_tok]. destruct rest as [|t r]; [reflexivity|].
+    destruct t; simpl in Hf; try lia; reflexivity.
+  - (* EList *)
+    assert (Hne : ls <> []) by (destruct ls; [discriminate|discriminate]).
+    assert (Hh : hdb 9 (body (EList ls))) by (simpl; split; intros; [|split]; discriminate).
+    assert (Hn : nolook (body (EList ls))).
+    { intros rest _. cbn [body app]. destruct ls as [|l [|l2 ls]]; [congruence| |];
+        simpl; destruct l as [| [] | | | |]; reflexivity. }
+    split; [|split; assumption].
+    apply Fall_build; [cbn [lvl]; lia|exact Hh|exact Hn|..]; cbn [lvl]; wrong_levels; intros _.
+    intros rest Hf. ok_start. cbn [body erase]. rewrite p_atom_S.
+    change ((TLP :: lits_toks ls ++ [TRP]) ++ rest) with (TLP :: (lits_toks ls ++ [TRP]) ++ rest).
+    rewrite <- app_assoc. cbn [app].
+    pose proof (p_lits_toks ls Hne rest) as PL.
+    destruct ls as [|l [|l2 ls]]; [congruence| |].
+    + change (lits_toks [l] ++ TRP :: rest) with (lit_tok l :: TComma :: TRP :: rest) in *.
+      cbv iota. rewrite lit_of_lit_tok, PL. reflexivity.
+    + change (lits_toks (l :: l2 :: ls) ++ TRP :: rest)
+        with (lit_tok l :: TComma :: (lits_tail (l2 :: ls) ++ TRP :: rest)) in *.
+      cbv iota. rewrite lit_of_lit_tok, PL. reflexivity.
+  - (* EColumn *)
+    assert (Hh : hdb 9 [TId name]) by (simpl; split; intros; [|split]; discriminate).
+    split; [|split; [exact Hh|apply nolook_single]].
+    apply Fall_build; [cbn [lvl]; lia|exact Hh|apply nolook_single|..]; cbn [lvl]; wrong_levels; intros _.
+    intros rest Hf. ok_start. cbn [body app erase]. rewrite p_atom_S.
+    apply negb_true_iff in Hwf. rewrite Hwf.
+    destruct rest as [|t r]; [reflexivity|].
+    destruct t; simpl in Hf; try lia; reflexivity.
+  - (* EFunc *)
+    assert (Hh : hdb 9 (body (EFunc name args))) by (simpl; split; intros; [|split]; discriminate).
+    assert (Hn : nolook (body (EFunc name args))) by (intros rest _; reflexivity).
+    split; [|split; assumption].
+    apply Fall_build; [cbn [lvl]; lia|exact Hh|exact Hn|..]; cbn [lvl]; wrong_levels; intros _.
+    assert (HF : forall x, List.In x args -> F1 (pp 1 x) (erase x)).
+    { intros x Hx. assert (Gx : Good x).
+      { apply IH; [pose proof (In_lsize esize x args Hx); lia| |].
+        - rewrite forallb_forall in Hwf. apply Hwf, Hx.
+        - rewrite forallb_forall in Hns. apply Hns, Hx. }
+      assert (Lx : 1 <= lvl x) by (apply nosel_lvl; rewrite forallb_forall in Hns; apply Hns, Hx).
+      destruct (pp_Fall 1 x ltac:(lia) Lx Gx) as (Fx & _ & _). apply (Fall_F1 _ _ _ Fx). lia. }
+    intros rest Hf. ok_start.
+    change (body (EFunc name args)) with (TId name :: TLP :: args_toks args ++ [TRP]) in *.
+    cbn [app erase] in *. rewrite <- app_assoc in *. cbn [app] in *. rewrite p_atom_S. cbv iota zeta.
+    rewrite (args_ok args rest HF) by len. reflexivity.
+  - (* EFuncStar *)
+    assert (Hh : hdb 9 (body (EFuncStar name))) by (simpl; split; intros; [|split]; discriminate).
+    assert (Hn : nolook (body (EFuncStar name))) by (intros rest _; reflexivity).
+    split; [|split; assumption].
+    apply Fall_build; [cbn [lvl]; lia|exact Hh|exact Hn|..]; cbn [lvl]; wrong_levels; intros _.
+    intros rest Hf. ok_start. cbn [body app erase] in *. rewrite p_atom_S. cbv iota zeta.
+    rewrite args_star by len. reflexivity.
+  - (* EPlace *)
+    assert (Hh : hdb 9 (body (EPlace name))) by (destruct name; simpl; split; intros; [|split| |split]; discriminate).
+    assert (Hn : nolook (body (EPlace name))) by (destruct name; apply nolook_single).
+    split; [|split; assumption].
+    apply Fall_build; [cbn [lvl]; lia|exact Hh|exact Hn|..]; cbn [lvl]; wrong_levels; intros _.
+    intros rest Hf. ok_start. rewrite p_atom_S. destruct name; reflexivity.
+  - (* EAttr *)
+    apply andb_prop in Hwf. destruct Hwf as [Hl Hwf]. apply Nat.leb_le in Hl.
+    assert (Ga : Good c) by (apply IH; [lia|assumption|assumption]).
+    destruct Ga as (Fa & Hha & Hna).
+    unfold Good. change (body (EAttr c name)) with (body c ++ [TDot; TId name]).
+    assert (Hh : hdb 8 (body c ++ [TDot; TId name])) by (apply hdb_app; eapply hdb_mono; [exact Hha|exact Hl]).
+    assert (Hn : nolook (body c ++ [TDot; TId name])) by (apply nolook_app; [exact Hna|intros; exact I]).
+    split; [|split; assumption].
+    apply Fall_build; [cbn [lvl]; lia|exact Hh|exact Hn|..]; cbn [lvl]; wrong_levels; intros _.
+    intros rest Hf. rewrite <- app_assoc. cbn [app erase].
+    change (primary_loop (EAttr (erase c) name) rest) with (primary_loop (erase c) (TDot :: TId name :: rest)).
+    apply (Fall_F8 _ _ _ Fa Hl). simpl. lia.
+  - (* ESubscript *)
+    apply andb_prop in Hwf. destruct Hwf as [Hl Hwf]. apply Nat.leb_le in Hl.
+    assert (Ga : Good c) by (apply IH; [lia|assumption|assumption]).
+    destruct Ga as (Fa & Hha & Hna).
+    unfold Good. change (body (ESubscript c key)) with (body c ++ [TLB; str_tok key; TRB]).
+    assert (Hh : hdb 8 (body c ++ [TLB; str_tok key; TRB])) by (apply hdb_app; eapply hdb_mono; [exact Hha|exact Hl]).
+    assert (Hn : nolook (body c ++ [TLB; str_tok key; TRB])) by (apply nolook_app; [exact Hna|intros; exact I]).
+    split; [|split; assumption].
+    apply Fall_build; [cbn [lvl]; lia|exact Hh|exact Hn|..]; cbn [lvl]; wrong_levels; intros _.
+    intros rest Hf. rewrite <- app_assoc. cbn [app erase].
+    change (primary_loop (ESubscript (erase c) key) rest) with (primary_loop (erase c) (TLB :: str_tok key :: TRB :: rest)).
+    apply (Fall_F8 _ _ _ Fa Hl). simpl. lia.
+  - (* ENeg *)
+    assert (Ga : Good c) by (apply IH; [lia|assumption|assumption]).
+    destruct (pp_Fall 7 c ltac:(lia) (nosel_lvl c Hns) Ga) as (Fa & _ & _).
+    unfold Good. change (body (ENeg c)) with (TMinus :: pp 7 c).
+    assert (Hh : hdb 7 (TMinus :: pp 7 c)) by (simpl; split; intros; [discriminate|lia]).
+    assert (Hn : nolook (TMinus :: pp 7 c)).
+    { intros rest _. cbn [app]. destruct (pp 7 c ++ rest) as [|t r]; [reflexivity|]. destruct t; reflexivity. }
+    split; [|split; assumption].
+    apply Fall_build; [cbn [lvl]; lia|exact Hh|exact Hn|..]; cbn [lvl]; wrong_levels; intros _.
+    intros rest Hf. ok_start. cbn [app erase] in *. rewrite p_factor_S.
+    destruct m; [exfalso; len|]. rewrite p_unary_S. cbv iota.
+    rewrite (Fall_F7 _ _ _ Fa (le_n 7) rest Hf) by len. reflexivity.
+  - (* EArith *)
+    apply andb_prop in Hwf. destruct Hwf as [Hw1 Hw2]. apply andb_prop in Hns. destruct Hns as [Hn1 Hn2].
+    assert (G1 : Good c1) by (apply IH; [lia|assumption|assumption]).
+    assert (G2 : Good c2) by (apply IH; [lia|assumption|assumption]).
+    destruct (pp_Fall 5 c1 ltac:(lia) (nosel_lvl c1 Hn1) G1) as (Fa & Hha & Hna).
+    destruct (pp_Fall 6 c2 ltac:(lia) (nosel_lvl c2 Hn2) G2) as (Fb & _ & _).
+    destruct (pp_Fall 6 c1 ltac:(lia) (nosel_lvl c1 Hn1) G1) as (Fa' & Hha' & Hna').
+    destruct (pp_Fall 7 c2 ltac:(lia) (nosel_lvl c2 Hn2) G2) as (Fb' & _ & _).
+    destruct op.
+      { unfold Good. change (body (EArith Add c1 c2)) with (pp 5 c1 ++ TPlus :: pp 6 c2).
+        assert (Hh : hdb 5 (pp 5 c1 ++ TPlus :: pp 6 c2)) by (apply hdb_app; exact Hha).
+        assert (Hn : nolook (pp 5 c1 ++ TPlus :: pp 6 c2)) by (apply nolook_app; [exact Hna|intros; exact I]).
+        split; [|split; assumption].
+        apply Fall_build; [cbn [lvl]; lia|exact Hh|exact Hn|..]; cbn [lvl]; wrong_levels; intros _.
+        intros rest r Hf Hl. rewrite <- app_assoc. cbn [app erase].
+        apply (Fall_F5 _ _ _ Fa (le_n 5)); [simpl; lia|].
+        ok_start. rewrite sum_loop_S. cbv iota.
+        rewrite (Fall_F6 _ _ _ Fb (le_n 6) rest (erase c2, rest)); [apply Hl; len| | |len].
+        - eapply follow'_mono; [exact Hf|lia].
+        - apply term_loop_stop, follow'_follow, Hf. }
+      { unfold Good. change (body (EArith Sub c1 c2)) with (pp 5 c1 ++ TMinus :: pp 6 c2).
+        assert (Hh : hdb 5 (pp 5 c1 ++ TMinus :: pp 6 c2)) by (apply hdb_app; exact Hha).
+        assert (Hn : nolook (pp 5 c1 ++ TMinus :: pp 6 c2)) by (apply nolook_app; [exact Hna|intros; exact I]).
+        split; [|split; assumption].
+        apply Fall_build; [cbn [lvl]; lia|exact Hh|exact Hn|..]; cbn [lvl]; wrong_levels; intros _.
+        intros rest r Hf Hl. rewrite <- app_assoc. cbn [app erase].
+        apply (Fall_F5 _ _ _ Fa (le_n 5)); [simpl; lia|].
+        ok_start. rewrite sum_loop_S. cbv iota.
+        rewrite (Fall_F6 _ _ _ Fb (le_n 6) rest (erase c2, rest)); [apply Hl; len| | |len].
+        - eapply follow'_mono; [exact Hf|lia].
+        - apply term_loop_stop, follow'_follow, Hf. }
+      { unfold Good. change (body (EArith Mul c1 c2)) with (pp 6 c1 ++ TStar :: pp 7 c2).
+        assert (Hh : hdb 6 (pp 6 c1 ++ TStar :: pp 7 c2)) by (apply hdb_app; exact Hha').
+        assert (Hn : nolook (pp 6 c1 ++ TStar :: pp 7 c2)) by (apply nolook_app; [exact Hna'|intros; exact I]).
+        split; [|split; assumption].
+        apply Fall_build; [cbn [lvl]; lia|exact Hh|exact Hn|..]; cbn [lvl]; wrong_levels; intros _.
+        intros rest r Hf Hl. rewrite <- app_assoc. cbn [app erase].
+        apply (Fall_F6 _ _ _ Fa' (le_n 6)); [simpl; lia|].
+        ok_start. rewrite term_loop_S. cbv iota.
+        rewrite (Fall_F7 _ _ _ Fb' (le_n 7) rest Hf); [apply Hl; len|len]. }
+      { unfold Good. change (body (EArith Div c1 c2)) with (pp 6 c1 ++ TSlash :: pp 7 c2).
+        assert (Hh : hdb 6 (pp 6 c1 ++ TSlash :: pp 7 c2)) by (apply hdb_app; exact Hha').
+        assert (Hn : nolook (pp 6 c1 ++ TSlash :: pp 7 c2)) by (apply nolook_app; [exact Hna'|intros; exact I]).
+        split; [|split; assumption].
+        apply Fall_build; [cbn [lvl]; lia|exact Hh|exact Hn|..]; cbn [lvl]; wrong_levels; intros _.
+        intros rest r Hf Hl. rewrite <- app_assoc. cbn [app erase].
+        apply (Fall_F6 _ _ _ Fa' (le_n 6)); [simpl; lia|].
+        ok_start. rewrite term_loop_S. cbv iota.
+        rewrite (Fall_F7 _ _ _ Fb' (le_n 7) rest Hf); [apply Hl; len|len]. }
+      { unfold Good. change (body (EArith Mod c1 c2)) with (pp 6 c1 ++ TPercent :: pp 7 c2).
+        assert (Hh : hdb 6 (pp 6 c1 ++ TPercent :: pp 7 c2)) by (apply hdb_app; exact Hha').
+        assert (Hn : nolook (pp 6 c1 ++ TPercent :: pp 7 c2)) by (apply nolook_app; [exact Hna'|intros; exact I]).
+        split; [|split; assumption].
+        apply Fall_build; [cbn [lvl]; lia|exact Hh|exact Hn|..]; cbn [lvl]; wrong_levels; intros _.
+        intros rest r Hf Hl. rewrite <- app_assoc. cbn [app erase].
+        apply (Fall_F6 _ _ _ Fa' (le_n 6)); [simpl; lia|].
+        ok_start. rewrite term_loop_S. cbv iota.
+        rewrite (Fall_F7 _ _ _ Fb' (le_n 7) rest Hf); [apply Hl; len|len]. }
+  - (* ECmp *)
+    apply andb_prop in Hwf. destruct Hwf as [Hw1 Hw2]. apply andb_prop in Hns. destruct Hns as [Hn1 Hn2].
+    assert (G1 : Good c1) by (apply IH; [lia|assumption|assumption]).
+    assert (G2 : Good c2) by (apply IH; [lia|assumption|assumption]).
+    destruct (pp_Fall 5 c1 ltac:(lia) (nosel_lvl c1 Hn1) G1) as (Fa & Hha & Hna).
+    destruct (pp_Fall 5 c2 ltac:(lia) (nosel_lvl c2 Hn2) G2) as (Fb & _ & _).
+    unfold Good. change (body (ECmp op c1 c2)) with (pp 5 c1 ++ cmp_toks op ++ pp 5 c2).
+    assert (Hh : hdb 4 (pp 5 c1 ++ cmp_toks op ++ pp 5 c2)) by (apply hdb_app; eapply hdb_mono; [exact Hha|lia]).
+    assert (Hn : nolook (pp 5 c1 ++ cmp_toks op ++ pp 5 c2)).
+    { apply nolook_app; [exact Hna|]. intros; destruct op; exact I. }
+    split; [|split; assumption].
+    apply Fall_build; [cbn [lvl]; lia|exact Hh|exact Hn|..]; cbn [lvl]; wrong_levels; intros _.
+    intros rest Hf. ok_start. rewrite p_comparison_S. rewrite <- !app_assoc in *. cbn [erase].
+    rewrite (Fall_F5 _ _ _ Fa (le_n 5) (cmp_toks op ++ pp 5 c2 ++ rest) (erase c1, cmp_toks op ++ pp 5 c2 ++ rest));
+      [| destruct op; simpl; lia | apply sum_loop_stop; destruct op; simpl; lia | len].
+    rewrite cmp_of_cmp_toks.
+    rewrite (Fall_F5 _ _ _ Fb (le_n 5) rest (erase c2, rest)); [reflexivity| | |len].
+    + eapply follow'_mono; [exact Hf|lia].
+    + apply sum_loop_stop, follow'_follow. eapply follow'_mono; [exact Hf|lia].
+  - (* EIsNull *)
+    assert (G1 : Good c) by (apply IH; [lia|assumption|assumption]).
+    destruct (pp_Fall 5 c ltac:(lia) (nosel_lvl c Hns) G1) as (Fa & Hha & Hna).
+    unfold Good. change (body (EIsNull c)) with (pp 5 c ++ [TKw KIS; TId w_null]).
+    assert (Hh : hdb 4 (pp 5 c ++ [TKw KIS; TId w_null])) by (apply hdb_app; eapply hdb_mono; [exact Hha|lia]).
+    assert (Hn : nolook (pp 5 c ++ [TKw KIS; TId w_null])) by (apply nolook_app; [exact Hna|intros; exact I]).
+    split; [|split; assumption].
+    apply Fall_build; [cbn [lvl]; lia|exact Hh|exact Hn|..]; cbn [lvl]; wrong_levels; intros _.
+    intros rest Hf. ok_start. rewrite p_comparison_S. rewrite <- !app_assoc in *. cbn [erase app] in *.
+    rewrite (Fall_F5 _ _ _ Fa (le_n 5) (TKw KIS :: TId w_null :: rest) (erase c, TKw KIS :: TId w_null :: rest));
+      [reflexivity | simpl; lia | apply sum_loop_stop; simpl; lia | len].
+  - (* EIsNotNull *)
+    assert (G1 : Good c) by (apply IH; [lia|assumption|assumption]).
+    destruct (pp_Fall 5 c ltac:(lia) (nosel_lvl c Hns) G1) as (Fa & Hha & Hna).
+    unfold Good. change (body (EIsNotNull c)) with (pp 5 c ++ [TKw KIS; TKw KNOT; TId w_null]).
+    assert (Hh : hdb 4 (pp 5 c ++ [TKw KIS; TKw KNOT; TId w_null])) by (apply hdb_app; eapply hdb_mono; [exact Hha|lia]).
+    assert (Hn : nolook (pp 5 c ++ [TKw KIS; TKw KNOT; TId w_null])) by (apply nolook_app; [exact Hna|intros; exact I]).
+    split; [|split; assumption].
+    apply Fall_build; [cbn [lvl]; lia|exact Hh|exact Hn|..]; cbn [lvl]; wrong_levels; intros _.
+    intros rest Hf. ok_start. rewrite p_comparison_S. rewrite <- !app_assoc in *. cbn [erase app] in *.
+    rewrite (Fall_F5 _ _ _ Fa (le_n 5) (TKw KIS :: TKw KNOT :: TId w_null :: rest) (erase c, TKw KIS :: TKw KNOT :: TId w_null :: rest));
+      [reflexivity | simpl; lia | apply sum_loop_stop; simpl; lia | len].
+  - (* EBetween *)
+    apply andb_prop in Hwf. destruct Hwf as [Hwf Hw3]. apply andb_prop in Hwf. destruct Hwf as [Hw1 Hw2].
+    apply andb_prop in Hns. destruct Hns as [Hns Hn3]. apply andb_prop in Hns. destruct Hns as [Hn1 Hn2].
+    assert (G1 : Good c1) by (apply IH; [lia|assumption|assumption]).
+    assert (G2 : Good c2) by (apply IH; [lia|assumption|assumption]).
+    assert (G3 : Good c3) by (apply IH; [lia|assumption|assumption]).
+    destruct (pp_Fall 5 c1 ltac:(lia) (nosel_lvl c1 Hn1) G1) as (Fa & Hha & Hna).
+    destruct (pp_Fall 5 c2 ltac:(lia) (nosel_lvl c2 Hn2) G2) as (Fb & _ & _).
+    destruct (pp_Fall 5 c3 ltac:(lia) (nosel_lvl c3 Hn3) G3) as (Fc & _ & _).
+    unfold Good. change (body (EBetween c1 c2 c3)) with (pp 5 c1 ++ TId w_between :: pp 5 c2 ++ TKw KAND :: pp 5 c3).
+    assert (Hh : hdb 4 (pp 5 c1 ++ TId w_between :: pp 5 c2 ++ TKw KAND :: pp 5 c3))
+      by (apply hdb_app; eapply hdb_mono; [exact Hha|lia]).
+    assert (Hn : nolook (pp 5 c1 ++ TId w_between :: pp 5 c2 ++ TKw KAND :: pp 5 c3))
+      by (apply nolook_app; [exact Hna|intros; exact I]).
+    split; [|split; assumption].
+    apply Fall_build; [cbn [lvl]; lia|exact Hh|exact Hn|..]; cbn [lvl]; wrong_levels; intros _.
+    intros rest Hf. ok_start. rewrite p_comparison_S. rewrite <- !app_assoc in *. cbn [erase app] in *.
+    rewrite <- !app_assoc in *. cbn [app] in *.
+    rewrite (Fall_F5 _ _ _ Fa (le_n 5) (TId w_between :: pp 5 c2 ++ TKw KAND :: pp 5 c3 ++ rest)
+               (erase c1, TId w_between :: pp 5 c2 ++ TKw KAND :: pp 5 c3 ++ rest));
+      [| simpl; lia | apply sum_loop_stop; simpl; lia | len].
+    change (cmp_of_tokens (TId w_between :: pp 5 c2 ++ TKw KAND :: pp 5 c3 ++ rest)) with (@None (cmp * list token)).
+    cbv iota. rewrite str_eqb_refl.
+    rewrite (Fall_F5 _ _ _ Fb (le_n 5) (TKw KAND :: pp 5 c3 ++ rest) (erase c2, TKw KAND :: pp 5 c3 ++ rest));
+      [| simpl; lia | apply sum_loop_stop; simpl; lia | len].
+    rewrite (Fall_F5 _ _ _ Fc (le_n 5) rest (erase c3, rest)); [reflexivity| | |len].
+    + eapply follow'_mono; [exact Hf|lia].
+    + apply sum_loop_stop, follow'_follow. eapply follow'_mono; [exact Hf|lia].
+  - (* ENot *)
+    assert (G1 : Good c) by (apply IH; [lia|assumption|assumption]).
+    destruct (pp_Fall 3 c ltac:(lia) (nosel_lvl c Hns) G1) as (Fa & _ & _).
+    unfold Good. change (body (ENot c)) with (TKw KNOT :: pp 3 c).
+    assert (Hh : hdb 3 (TKw KNOT :: pp 3 c)) by (simpl; split; intros; lia).
+    assert (Hn : nolook (TKw KNOT :: pp 3 c)).
+    { intros rest _. cbn [app]. destruct (pp 3 c ++ rest) as [|t r]; [reflexivity|]. destruct t; reflexivity. }
+    split; [|split; assumption].
+    apply Fall_build; [cbn [lvl]; lia|exact Hh|exact Hn|..]; cbn [lvl]; wrong_levels; intros _.
+    intros rest Hf. ok_start. cbn [app erase] in *. rewrite p_inversion_S. cbv iota.
+    rewrite (Fall_F3 _ _ _ Fa (le_n 3) rest Hf) by len. reflexivity.
+  - (* EAnd *)
+    destruct args as [|a1 l]; [discriminate|].
+    apply andb_prop in Hwf. destruct Hwf as [Hlen Hwf]. cbn [forallb] in Hwf, Hns.
+    apply andb_prop in Hwf. destruct Hwf as [Hw1 Hwl]. apply andb_prop in Hns. destruct Hns as [Hn1 Hnl].
+    assert (Hne : l <> []) by (destruct l; [discriminate|discriminate]).
+    cbn [lsize fold_right] in Hs. fold (lsize esize l) in Hs.
+    assert (G1 : Good a1) by (apply IH; [lia|assumption|assumption]).
+    destruct (pp_Fall 3 a1 ltac:(lia) (nosel_lvl a1 Hn1) G1) as (Fa & Hha & Hna).
+    assert (HF : forall x, List.In x l -> F3 (pp 3 x) (erase x)).
+    { intros x Hx. assert (Gx : Good x).
+      { apply IH; [pose proof (In_lsize esize x l Hx); lia| |].
+        - rewrite forallb_forall in Hwl. apply Hwl, Hx.
+        - rewrite forallb_forall in Hnl. apply Hnl, Hx. }
+      assert (Lx : 1 <= lvl x) by (apply nosel_lvl; rewrite forallb_forall in Hnl; apply Hnl, Hx).
+      destruct (pp_Fall 3 x ltac:(lia) Lx Gx) as (Fx & _ & _). apply (Fall_F3 _ _ _ Fx). lia. }
+    unfold Good. change (body (EAnd (a1 :: l))) with (pp 3 a1 ++ concat (map (fun x => TKw KAND :: pp 3 x) l)).
+    set (tail := concat (map (fun x => TKw KAND :: pp 3 x) l)) in *.
+    assert (Ht : forall rest, exists r, tail ++ rest = TKw KAND :: r).
+    { intros rest. unfold tail. destruct l as [|x l']; [congruence|]. cbn [map concat app]. eexists. reflexivity. }
+    assert (Hh : hdb 2 (pp 3 a1 ++ tail)) by (apply hdb_app; eapply hdb_mono; [exact Hha|lia]).
+    assert (Hn : nolook (pp 3 a1 ++ tail)).
+    { apply nolook_app; [exact Hna|]. intros rest. destruct (Ht rest) as [r ->]. exact I. }
+    split; [|split; assumption].
+    apply Fall_build; [cbn [lvl]; lia|exact Hh|exact Hn|..]; cbn [lvl]; wrong_levels; intros _.
+    intros rest Hf. ok_start. rewrite p_conjunction_S. rewrite <- !app_assoc in *.
+    rewrite (Fall_F3 _ _ _ Fa (le_n 3) (tail ++ rest)); [| destruct (Ht rest) as [r ->]; simpl; lia | len].
+    unfold tail. rewrite (and_tail l (erase a1) [] rest HF Hf) by (fold tail; len).
+    rewrite mk_bool_rev; [reflexivity|]. destruct l; [congruence|discriminate].
+  - (* EOr *)
+    destruct args as [|a1 l]; [discriminate|].
+    apply andb_prop in Hwf. destruct Hwf as [Hlen Hwf]. cbn [forallb] in Hwf, Hns.
+    apply andb_prop in Hwf. destruct Hwf as [Hw1 Hwl]. apply andb_prop in Hns. destruct Hns as [Hn1 Hnl].
+    assert (Hne : l <> []) by (destruct l; [discriminate|discriminate]).
+    cbn [lsize fold_right] in Hs. fold (lsize esize l) in Hs.
+    assert (G1 : Good a1) by (apply IH; [lia|assumption|assumption]).
+    destruct (pp_Fall 2 a1 ltac:(lia) (nosel_lvl a1 Hn1) G1) as (Fa & Hha & Hna).
+    assert (HF : forall x, List.In x l -> F2 (pp 2 x) (erase x)).
+    { intros x Hx. assert (Gx : Good x).
+      { apply IH; [pose proof (In_lsize esize x l Hx); lia| |].
+        - rewrite forallb_forall in Hwl. apply Hwl, Hx.
+        - rewrite forallb_forall in Hnl. apply Hnl, Hx. }
+      assert (Lx : 1 <= lvl x) by (apply nosel_lvl; rewrite forallb_forall in Hnl; apply Hnl, Hx).
+      destruct (pp_Fall 2 x ltac:(lia) Lx Gx) as (Fx & _ & _). apply (Fall_F2 _ _ _ Fx). lia. }
+    unfold Good. change (body (EOr (a1 :: l))) with (pp 2 a1 ++ concat (map (fun x => TKw KOR :: pp 2 x) l)).
+    set (tail := concat (map (fun x => TKw KOR :: pp 2 x) l)) in *.
+    assert (Ht : forall rest, exists r, tail ++ rest = TKw KOR :: r).
+    { intros rest. unfold tail. destruct l as [|x l']; [congruence|]. cbn [map concat app]. eexists. reflexivity. }
+    assert (Hh : hdb 1 (pp 2 a1 ++ tail)) by (apply hdb_app; eapply hdb_mono; [exact Hha|lia]).
+    assert (Hn : nolook (pp 2 a1 ++ tail)).
+    { apply nolook_app; [exact Hna|]. intros rest. destruct (Ht rest) as [r ->]. exact I. }
+    split; [|split; assumption].
+    apply Fall_build; [cbn [lvl]; lia|exact Hh|exact Hn|..]; cbn [lvl]; wrong_levels; intros _.
+    intros rest Hf. apply L_D_E. ok_start. rewrite p_disjunction_S. rewrite <- !app_assoc in *.
+    rewrite (Fall_F2 _ _ _ Fa (le_n 2) (tail ++ rest)); [| destruct (Ht rest) as [r ->]; simpl; lia | len].
+    unfold tail. rewrite (or_tail l (erase a1) [] rest HF Hf) by (fold tail; len).
+    rewrite mk_bool_rev; [reflexivity|]. destruct l; [congruence|discriminate].
+  - (* EParen *)
+    assert (G1 : Good c) by (apply IH; [lia|assumption|assumption]).
+    destruct (pp_Fall 1 c ltac:(lia) (nosel_lvl c Hns) G1) as (Fa & _ & _).
+    unfold Good. change (body (EParen c)) with (paren (pp 1 c)).
+    assert (Hh : hdb 7 (paren (pp 1 c))) by (simpl; split; intros; [discriminate|lia]).
+    split; [|split; [exact Hh|apply nolook_paren]].
+    apply Fall_build; [cbn [lvl]; lia|exact Hh|apply nolook_paren|..]; cbn [lvl]; wrong_levels; intros _.
+    intros rest Hf. rewrite paren_app. cbn [erase]. apply (Fall_FP _ _ _ Fa).
+  - (* EUPlus *)
+    apply andb_prop in Hwf. destruct Hwf as [Hwf Hw1]. apply andb_prop in Hwf. destruct Hwf as [Hl _].
+    apply Nat.leb_le in Hl.
+    assert (G1 : Good c) by (apply IH; [lia|assumption|assumption]).
+    destruct G1 as (Fa & _ & _).
+    unfold Good. change (body (EUPlus c)) with (TPlus :: body c).
+    assert (Hh : hdb 7 (TPlus :: body c)) by (simpl; split; intros; [discriminate|lia]).
+    assert (Hn : nolook (TPlus :: body c)).
+    { intros rest _. cbn [app]. destruct (body c ++ rest) as [|t r]; [reflexivity|]. destruct t; reflexivity. }
+    split; [|split; assumption].
+    apply Fall_build; [cbn [lvl]; lia|exact Hh|exact Hn|..]; cbn [lvl]; wrong_levels; intros _.
+    intros rest Hf. ok_start. cbn [app erase] in *. rewrite p_factor_S.
+    destruct m; [exfalso; len|]. rewrite p_unary_S. cbv iota.
+    rewrite (Fall_F9 _ _ _ Fa Hl rest) by (try (eapply follow'_mono; [exact Hf|lia]); len). reflexivity.
+Qed.
+
+(* ---------------------------------------------------------------------- *)
+(* round trip of expressions (token level) *)
+
+Theorem expr_roundtrip_nosel : forall c, wf c = true -> nosel c = true ->
+  parse_expr (body c) = Some (erase c).
+Proof.
+  intros c Hwf Hns. destruct (main (esize c) c (le_n _) Hwf Hns) as (HF & _ & _).
+  pose proof (Fall_F1 _ _ _ HF (nosel_lvl c Hns) [] I) as H.
+  unfold parse_expr, fuel_for. rewrite app_nil_r in H. rewrite H; [reflexivity|lia].
+Qed.
+
+Lemma map_id_in {A} (f : A -> A) l : (forall x, List.In x l -> f x = x) -> map f l = l.
+Proof.
+  induction l as [|y l IH]; intros H; [reflexivity|]. simpl.
+  rewrite (H y (or_introl eq_refl)), IH; [reflexivity|]. intros; apply H; right; assumption.
+Qed.
+
+Lemma pure_erase_nosel : forall n e, esize e <= n -> pure e = true -> nosel e = true -> erase e = e.
+Proof.
+  induction n as [|n IH]; intros e Hs Hp Hn.
+  { destruct e; simpl in Hs; lia. }
+  destruct e; cbn [pure nosel esize erase] in *; try discriminate; try reflexivity;
+    repeat match goal with
+           | H : _ && _ = true |- _ => apply andb_prop in H; destruct H
+           end;
+    try (rewrite ?IH by (assumption || lia); reflexivity).
+  - f_equal. apply map_id_in. intros x Hx. rewrite forallb_forall in Hp, Hn.
+    apply IH; [pose proof (In_lsize esize x args Hx); lia|apply Hp, Hx|apply Hn, Hx].
+  - f_equal. apply map_id_in. intros x Hx. rewrite forallb_forall in Hp, Hn.
+    apply IH; [pose proof (In_lsize esize x args Hx); lia|apply Hp, Hx|apply Hn, Hx].
+  - f_equal. apply map_id_in. intros x Hx. rewrite forallb_forall in Hp, Hn.
+    apply IH; [pose proof (In_lsize esize x args Hx); lia|apply Hp, Hx|apply Hn, Hx].
+Qed.
+
+Theorem expr_roundtrip_pure_nosel : forall e, wf e = true -> nosel e = true -> pure e = true ->
+  parse_expr (body e) = Some e.
+Proof.
+  intros e Hwf Hns Hp. rewrite expr_roundtrip_nosel by assumption.
+  rewrite (pure_erase_nosel (esize e) e (le_n _) Hp Hns). reflexivity.
+Qed.
+
+(* two distinct trees never print alike (up to redundant syntax) *)
+Theorem print_injective_nosel : forall c1 c2, wf c1 = true -> wf c2 = true ->
+  nosel c1 = true -> nosel c2 = true -> body c1 = body c2 -> erase c1 = erase c2.
+Proof.
+  intros c1 c2 W1 W2 N1 N2 E.
+  pose proof (expr_roundtrip_nosel c1 W1 N1) as H1. rewrite E, (expr_roundtrip_nosel c2 W2 N2) in H1.
+  congruence.
 Qed.
